@@ -278,7 +278,9 @@ def run_unary(F, system, mom, layouts, seed, extras_layouts=("ak-jagged", "ak-re
                     g = _G.get(fld, fld)
                     if g in ("x", "y", "rho", "phi", "z", "theta", "eta", "t", "tau"):
                         try:
-                            same = AR.close(ak.to_list(res[fld]), ak.to_list(getattr(res, g)), 0, 0)
+                            need = 3 if g in ("z", "theta", "eta") else 4 if g in ("t", "tau") else 2
+                            # a coordinate column beyond the result's own dimension is a stale operand column (Awkward would serve it as a plain field)
+                            same = vector.dim(res) >= need and AR.close(ak.to_list(res[fld]), ak.to_list(getattr(res, g)), 0, 0)
                         except Exception as e:
                             same = False
                         F.check("C18", f"coordinate-field-is-current/{fld}/{tag}", same, dict(fields=ak.fields(res)))
